@@ -213,8 +213,23 @@ def r3_keys(rep, src):
     bad = None
     n_join = 0
 
+    # (a private method of the paragraph classes whose every return hands back such a lookup -- the plain one in the base class, one
+    # that resolves an ambiguous key in the class that allows duplicates -- is a lookup too)
+    mod_ = src.mod(PM)
+    lookup_helpers = set()
+    for q_, g_ in mod_.funcs.items():
+        nm_ = q_.split('.')[-1]
+        if '.' in q_ and nm_.startswith('_') and not nm_.startswith('__') and 'Paragraph' in q_.split('.')[0]:
+            rets_ = [r_ for r_ in ast.walk(g_.node) if isinstance(r_, ast.Return)]
+            if rets_ and all(r_.value is not None and isinstance(r_.value, ast.Call) and isinstance(r_.value.func, ast.Attribute)
+                             and r_.value.func.attr == 'get_kvpair_element' and norm(r_.value.func.value) == 'self' for r_ in rets_):
+                lookup_helpers.add(nm_)
+    for nm_ in list(lookup_helpers):
+        if not all(any(isinstance(r_, ast.Return) for r_ in ast.walk(g_.node)) for q_, g_ in mod_.funcs.items() if q_.endswith('.' + nm_)):
+            lookup_helpers.discard(nm_)
+
     def is_lookup(e):
-        return isinstance(e, ast.Call) and isinstance(e.func, ast.Attribute) and e.func.attr == 'get_kvpair_element' and norm(e.func.value) == 'self'
+        return isinstance(e, ast.Call) and isinstance(e.func, ast.Attribute) and (e.func.attr == 'get_kvpair_element' or e.func.attr in lookup_helpers) and norm(e.func.value) == 'self'
     for p_ in ps:
         heads = []
         trees = list(p_.env.values()) + [ev[1] for ev in p_.events if ev[0] in ('effect', 'loop')] + [ev[2] for ev in p_.events if ev[0] == 'store']
